@@ -457,7 +457,9 @@ Definition run_wt (op : bytes) (args0 : list bytes) : bytes :=
   else bad.
 
 (* ---- dispatch (C13) ----
-   dp.run <cap> <subs> <event> ...      subs: - or cmd:h.h.h,cmd:h     events: K take | R.<n>.<type>.<cmd>.<rid>.<status>.<bodyhex>
+   dp.run <cap> <subs> <event> ...      subs: - or cmd:h.h.h,cmd:h     events: K dispatcher iteration | R.<n>.<type>.<cmd>.<rid>.<status>.<bodyhex>
+                                        | C connection closed | S packet callback registered (OnPacket)
+   dp.late ...                          the same, starting from a connection whose callback is not registered yet; output + gone=<n>
    output: calls=<h:cmd:bodyhex,...|-> drops=<n> taken=<n> *)
 Definition parse_sub (b : bytes) : option (N * list nat) :=
   match split_on ":"%byte b with
@@ -469,6 +471,8 @@ Definition parse_dact (e : bytes) : option dact :=
   match e with
   | k :: rest =>
       if byte_eqb k "K"%byte then Some DTake
+      else if byte_eqb k "S"%byte then (match rest with [] => Some DStart | _ => None end)
+      else if byte_eqb k "C"%byte then (match rest with [] => Some DClose | _ => None end)
       else if byte_eqb k "R"%byte then
         match split_on "."%byte rest with
         | [_; _; ty; cmd; rid; st; body] =>
@@ -480,15 +484,17 @@ Definition parse_dact (e : bytes) : option dact :=
   | [] => None
   end.
 Definition run_dp (op : bytes) (args : list bytes) : bytes :=
-  if bytes_eqb op (str "dp.run") then
+  let late := bytes_eqb op (str "dp.late") in
+  if bytes_eqb op (str "dp.run") || late then
     match args with
     | cap :: sb :: evs =>
         match undec cap, (if bytes_eqb sb (str "-") then Some [] else omap_all parse_sub (split_on ","%byte sb)), omap_all parse_dact evs with
         | Some cap, Some sl, Some acts =>
-            let s := drun (mk_subs sl) (N.to_nat cap) acts in
+            let s := (if late then drun_u else drun) (mk_subs sl) (N.to_nat cap) acts in
             str "calls=" ++
             (match d_calls s with [] => str "-" | cs => join (str ",") (map (fun hc => decn (fst hc) ++ str ":" ++ dec (w_cmd (snd hc)) ++ str ":" ++ hex (w_body (snd hc))) cs) end)
             ++ str " drops=" ++ decn (d_drops s) ++ str " taken=" ++ decn (List.length (d_taken s))
+            ++ (if late then str " gone=" ++ decn (d_gone s) else [])
         | _, _, _ => bad end
     | _ => bad end
   else bad.
